@@ -630,7 +630,6 @@ func c01(c *core.Ctx) {
 	c.Borrow("C20", map[string]string{"R6": "R8"}, c20)
 	c.Borrow("C02", map[string]string{"R1": "R9"}, c02)
 
-
 	// ---------------------------------------------------------------- R10 (shared)
 	// "each equal to the message sent": every cloner route replaces the destination, none merges into what a
 	// reused destination still holds (C18/R1)
